@@ -14,10 +14,10 @@
 (* (typed with tools/gen_values.py)                                                         *)
 EXTENDS Naturals, Sequences
 
-CoreIds == {"w", "two", "empty", "bsn", "nl", "numstr", "int", "float", "t", "null", "ref", "uni", "flow", "chain", "syn", "tens", "qop", "ann", "ctor1", "holo", "l0", "l2", "l3", "lnest", "lmatrix", "lmap", "lfalsy", "lq", "lexpr", "z1", "zpy", "zempty"}
+CoreIds == {"w", "two", "empty", "bsn", "nl", "numstr", "int", "float", "t", "null", "ref", "uni", "flow", "chain", "syn", "tens", "qop", "ann", "ctor1", "holo", "l0", "l2", "l3", "lnest", "lmatrix", "lmap", "lfalsy", "lq", "lexpr", "z1", "zpy", "ztrail", "zempty"}
 FullIds == {"three", "quote", "bslash", "tab", "truestr", "nullstr", "vsstr", "truedot", "neg", "zero", "big", "exp", "negexp", "f", "ver", "verpre", "var", "vartyped", "ref2b", "path", "hyph", "colon", "pct", "emoji", "alt", "con", "cat", "at", "mixed", "ctor2", "ctor0", "holoenum", "l1", "lnullmap", "lemptymap", "ltq", "lann", "lpattern", "z4", "ztab", "zblank"}
 ValIds == CoreIds \cup FullIds
-ZoneIds == {"z1", "zpy", "z4", "zempty", "ztab", "zblank"}
+ZoneIds == {"z1", "zpy", "z4", "ztrail", "zempty", "ztab", "zblank"}
 ListIds == {"holo", "holoenum", "l0", "l1", "l2", "l3", "lnest", "lmatrix", "lmap", "lfalsy", "lnullmap", "lemptymap", "lq", "ltq", "lexpr", "lann", "lpattern"}
 
 Abs(v) ==
@@ -91,6 +91,7 @@ Abs(v) ==
     [] v = "z1" -> [t |-> "zone", s |-> "3:", xs |-> <<[t |-> "ln", s |-> "code here", xs |-> <<>>]>>]
     [] v = "zpy" -> [t |-> "zone", s |-> "3:python", xs |-> <<[t |-> "ln", s |-> "a -> b", xs |-> <<>>], [t |-> "ln", s |-> "  k::v # c", xs |-> <<>>]>>]
     [] v = "z4" -> [t |-> "zone", s |-> "4:", xs |-> <<[t |-> "ln", s |-> "```", xs |-> <<>>], [t |-> "ln", s |-> "===END===", xs |-> <<>>]>>]
+    [] v = "ztrail" -> [t |-> "zone", s |-> "3:", xs |-> <<[t |-> "ln", s |-> "trail  ", xs |-> <<>>], [t |-> "ln", s |-> "tab{U0009}", xs |-> <<>>]>>]
     [] v = "zempty" -> [t |-> "zone", s |-> "3:", xs |-> <<>>]
     [] v = "ztab" -> [t |-> "zone", s |-> "3:txt", xs |-> <<[t |-> "ln", s |-> "{U0009}x", xs |-> <<>>], [t |-> "ln", s |-> "cafe{U0301}", xs |-> <<>>], [t |-> "ln", s |-> "q\"\\n", xs |-> <<>>]>>]
     [] v = "zblank" -> [t |-> "zone", s |-> "3:", xs |-> <<[t |-> "ln", s |-> "x", xs |-> <<>>], [t |-> "ln", s |-> "", xs |-> <<>>], [t |-> "ln", s |-> "---", xs |-> <<>>]>>]
@@ -223,6 +224,7 @@ Spell(v) ==
     [] v = "z1" -> <<<<[k |-> "first", c |-> <<>>], [k |-> "rel", c |-> <<"```">>], [k |-> "raw", c |-> <<"code here">>], [k |-> "rel", c |-> <<"```">>]>>>>
     [] v = "zpy" -> <<<<[k |-> "first", c |-> <<>>], [k |-> "rel", c |-> <<"```", "python">>], [k |-> "raw", c |-> <<"a -> b">>], [k |-> "raw", c |-> <<"  k::v # c">>], [k |-> "rel", c |-> <<"```">>]>>>>
     [] v = "z4" -> <<<<[k |-> "first", c |-> <<>>], [k |-> "rel", c |-> <<"````">>], [k |-> "raw", c |-> <<"```">>], [k |-> "raw", c |-> <<"===END===">>], [k |-> "rel", c |-> <<"````">>]>>>>
+    [] v = "ztrail" -> <<<<[k |-> "first", c |-> <<>>], [k |-> "rel", c |-> <<"```">>], [k |-> "raw", c |-> <<"trail  ">>], [k |-> "raw", c |-> <<"tab", "U0009">>], [k |-> "rel", c |-> <<"```">>]>>>>
     [] v = "zempty" -> <<<<[k |-> "first", c |-> <<>>], [k |-> "rel", c |-> <<"```">>], [k |-> "rel", c |-> <<"```">>]>>>>
     [] v = "ztab" -> <<<<[k |-> "first", c |-> <<>>], [k |-> "rel", c |-> <<"```", "txt">>], [k |-> "raw", c |-> <<"U0009", "x">>], [k |-> "raw", c |-> <<"cafe", "U0301">>], [k |-> "raw", c |-> <<"q\"\\n">>], [k |-> "rel", c |-> <<"```">>]>>>>
     [] v = "zblank" -> <<<<[k |-> "first", c |-> <<>>], [k |-> "rel", c |-> <<"```">>], [k |-> "raw", c |-> <<"x">>], [k |-> "raw", c |-> <<>>], [k |-> "raw", c |-> <<"---">>], [k |-> "rel", c |-> <<"```">>]>>>>
